@@ -223,6 +223,19 @@ type genResult struct {
 func runGenerator(gen string, outDir, pkgRoot, manifest string, variant int) genResult {
 	_ = os.RemoveAll(outDir)
 	_ = os.MkdirAll(filepath.Dir(outDir), 0o755)
+	if variant == 4 {
+		// this run regenerates into a directory that holds the output of an earlier, different schema revision: whatever
+		// the generator owns there (any directory name, the generator writes "_internal" itself) must not survive
+		suffix, manName := ".gr.go", "go-restli-manifest.gr.json"
+		if gen != "v2" {
+			manName = "parsed-specs.gr.json"
+		}
+		for _, stale := range []string{"_internal/old/Stale" + suffix, ".tmp/Stale" + suffix, "old/pkg/Stale" + suffix, "old/" + manName, "Stale" + suffix} {
+			f := filepath.Join(outDir, stale)
+			_ = os.MkdirAll(filepath.Dir(f), 0o755)
+			_ = os.WriteFile(f, []byte("package stale // from an earlier revision\n"), 0o444)
+		}
+	}
 	var cmd *exec.Cmd
 	absOut, _ := filepath.Abs(outDir)
 	absMan, _ := filepath.Abs(manifest)
@@ -477,11 +490,146 @@ func main() {
 	}
 	close(ch)
 	wg.Wait()
+	customTyperefs(run)
 	checkedIn(run)
+	run.Require("v2.custom_typeref_builds", 2)
 	run.Require("v2.sets_compiled", 20)
 	run.Require("root.sets_compiled", 20)
 	run.Require("checked_in.files_compared", 10)
 	run.Finish()
+}
+
+// ---------------------------------------------------------------------------------------------
+// custom typerefs (v2): a hand-written Go type beside the generated code stands for a typeref; a second schema set is
+// generated against the manifest the first generation wrote
+
+const temperatureSource = `package units
+
+import (
+	"errors"
+	"strings"
+
+	"github.com/PapaCharlie/go-restli/v2/fnv1a"
+)
+
+// Temperature is hand written: it replaces the typeref units.Temperature (string on the wire, e.g. "21.5C").
+type Temperature struct {
+	Value string
+	Unit  byte
+}
+
+func MarshalTemperature(t Temperature) (string, error) {
+	if t.Unit == 0 {
+		return "", errors.New("temperature without a unit")
+	}
+	return t.Value + string(t.Unit), nil
+}
+
+func UnmarshalTemperature(s string) (Temperature, error) {
+	if s == "" || !strings.ContainsAny(s[len(s)-1:], "CFK") {
+		return Temperature{}, errors.New("not a temperature: " + s)
+	}
+	return Temperature{s[:len(s)-1], s[len(s)-1]}, nil
+}
+
+func ComputeHashTemperature(t Temperature) fnv1a.Hash { return fnv1a.HashString(t.Value + string(t.Unit)) }
+
+func EqualsTemperature(a, b Temperature) bool { return a == b }
+`
+
+func customTyperefs(run *ev.Run) {
+	gen := "v2"
+	temp, plain := corpus.R("units.Temperature"), corpus.R("units.Plain")
+	str := corpus.P("string")
+	lib := &corpus.Schema{Name: "ctlib", PackageRoot: "verifh/c12/v2/ctlib"}
+	lib.Add(&corpus.TypeDef{Kind: "typeref", Name: "Temperature", Namespace: "units", Prim: "string"})
+	lib.Add(&corpus.TypeDef{Kind: "typeref", Name: "Plain", Namespace: "units", Prim: "string"})
+	lib.Add(&corpus.TypeDef{Kind: "record", Name: "Reading", Namespace: "units", Fields: []corpus.Field{
+		corpus.F("t", temp), corpus.Opt("ot", temp), corpus.F("at", corpus.A(temp)), corpus.F("mt", corpus.M(temp)), corpus.Def("dt", temp, `"21C"`), corpus.F("p", plain), corpus.F("s", str)}})
+	lib.Add(&corpus.TypeDef{Kind: "union", Name: "TU", Namespace: "units", Members: []corpus.Member{{Alias: "units.Temperature", Type: temp}, {Alias: "string", Type: str}}})
+	reading := corpus.R("units.Reading")
+	lib.Resources = append(lib.Resources, &corpus.Resource{Namespace: "units.readings", Segments: []corpus.PathSeg{{Name: "readings", KeyName: "temp", Key: &temp}}, Schema: &reading,
+		Methods: []corpus.MethodSpec{{Kind: "REST_METHOD", Name: "get", OnEntity: true}, {Kind: "REST_METHOD", Name: "batch_get"}, {Kind: "REST_METHOD", Name: "create"},
+			{Kind: "FINDER", Name: "near", Params: []corpus.Param{corpus.F("t", temp), corpus.Opt("ts", corpus.A(temp))}}}})
+	app := &corpus.Schema{Name: "ctapp", PackageRoot: "verifh/c12/v2/ctapp"}
+	app.Add(&corpus.TypeDef{Kind: "record", Name: "Forecast", Namespace: "model", Fields: []corpus.Field{
+		corpus.F("high", temp), corpus.Opt("low", temp), corpus.F("hourly", corpus.A(temp)), corpus.F("byCity", corpus.M(temp)), corpus.F("label", plain), corpus.Opt("last", reading)}})
+	forecast := corpus.R("model.Forecast")
+	app.Resources = append(app.Resources, &corpus.Resource{Namespace: "model.forecasts", Segments: []corpus.PathSeg{{Name: "forecasts", KeyName: "at", Key: &temp}}, Schema: &forecast,
+		Methods: []corpus.MethodSpec{{Kind: "REST_METHOD", Name: "get", OnEntity: true}, {Kind: "REST_METHOD", Name: "batch_get"}}})
+
+	generate := func(s *corpus.Schema, rel string, deps []string, prepare func(out string)) (map[string]string, string) {
+		man, err := s.ManifestV2()
+		if err != nil {
+			return nil, "manifest emitter: " + err.Error()
+		}
+		manFile := filepath.Join(workDir, "c12-manifests", gen, s.Name+".json")
+		_ = os.MkdirAll(filepath.Dir(manFile), 0o755)
+		_ = os.WriteFile(manFile, man, 0o644)
+		out := filepath.Join(workDir, rel)
+		_ = os.RemoveAll(out)
+		_ = os.MkdirAll(out, 0o755)
+		prepare(out)
+		args := append([]string{out, manFile}, deps...)
+		cmd := exec.Command(gen2Bin, args...)
+		o, err := cmd.CombinedOutput()
+		run.Count(gen+".generator_runs", 1)
+		if err != nil {
+			return nil, "generator failed: " + trunc(string(o))
+		}
+		tree, _ := treeHash(out)
+		return tree, ""
+	}
+	restliDep := filepath.Join(repo, "v2/restlidata/generated/go-restli-manifest.gr.json")
+	placeCustom := func(out string) {
+		_ = os.MkdirAll(filepath.Join(out, "units"), 0o755)
+		_ = os.WriteFile(filepath.Join(out, "units", "Temperature.go"), []byte(temperatureSource), 0o644)
+	}
+	desc := map[string]any{"generation": gen, "case": "custom typeref units.Temperature (hand-written units/Temperature.go) in a library set, used by an application set generated against the manifest the library generation wrote"}
+	run.Eval(1)
+	libRel := filepath.Join("c12", gen, "ctlib")
+	t1, problem := generate(lib, libRel, []string{restliDep}, placeCustom)
+	if problem != "" {
+		desc["detail"] = problem
+		run.Violation("v2/custom-typeref/library-generation-failed", desc)
+		return
+	}
+	if t2, _ := generate(lib, libRel, []string{restliDep}, placeCustom); t2 != nil {
+		if d := diffTrees(t1, t2); len(d) > 0 {
+			desc["tree_differences"] = d
+			run.Violation("v2/custom-typeref/nondeterministic-output", desc)
+			return
+		}
+	}
+	if _, err := os.Stat(filepath.Join(workDir, libRel, "units", "Temperature.go")); err != nil {
+		run.Violation("v2/custom-typeref/hand-written-file-removed", desc)
+		return
+	}
+	if ok, out := goBuild("./" + libRel + "/..."); !ok {
+		_, first := classify(out)
+		desc["first_error"], desc["compiler_output"] = first, trunc(out)
+		run.Violation("v2/custom-typeref/library-does-not-compile", desc)
+		return
+	}
+	run.Count("v2.custom_typeref_builds", 1)
+	run.Eval(1)
+	appRel := filepath.Join("c12", gen, "ctapp")
+	libManifest := filepath.Join(workDir, libRel, "go-restli-manifest.gr.json")
+	if _, problem := generate(app, appRel, []string{restliDep, libManifest}, func(string) {}); problem != "" {
+		desc["detail"] = problem
+		run.Violation("v2/custom-typeref/application-generation-failed", desc)
+		return
+	}
+	if ok, out := goBuild("./" + appRel + "/..."); !ok {
+		_, first := classify(out)
+		desc["first_error"], desc["compiler_output"] = first, trunc(out)
+		run.Violation("v2/custom-typeref/application-does-not-compile", desc)
+		return
+	}
+	run.Count("v2.custom_typeref_builds", 1)
+	run.Distinct("v2|custom-typeref")
+	_ = os.RemoveAll(filepath.Join(workDir, libRel))
+	_ = os.RemoveAll(filepath.Join(workDir, appRel))
 }
 
 // ---------------------------------------------------------------------------------------------
